@@ -1656,7 +1656,46 @@ impl ItemContent {
     @*/
 }
 
+/*@extract yrs/src/block.rs | - | const ITEM_FLAG_DELETED @*/
+/*@extract yrs/src/block.rs | - | const ITEM_FLAG_COUNTABLE @*/
+
+impl ItemFlags {
+    pub closed spec fn bits(&self) -> u16 { self.0 }
+
+    /*@extract yrs/src/block.rs | impl ItemFlags | fn check | label=ItemFlags.check
+    @ret r
+    @sig
+        ensures r == (self.bits() & value == value),
+    @*/
+
+    /*@extract yrs/src/block.rs | impl ItemFlags | fn is_countable | label=ItemFlags.is_countable
+    @ret r
+    @sig
+        ensures r == (self.bits() & 0b10 == 0b10),
+    @*/
+
+    /*@extract yrs/src/block.rs | impl ItemFlags | fn is_deleted | label=ItemFlags.is_deleted
+    @ret r
+    @sig
+        ensures r == (self.bits() & 0b100 == 0b100),
+    @*/
+}
+
 impl Item {
+    // (is_countable / is_deleted: not used by the encoder on the pinned tree; under contract so that code consulting the
+    // item's flags can be ingested)
+    /*@extract yrs/src/block.rs | impl Item | fn is_countable | label=Item.is_countable
+    @ret r
+    @sig
+        ensures r == (self.info.bits() & 0b10 == 0b10),
+    @*/
+
+    /*@extract yrs/src/block.rs | impl Item | fn is_deleted | label=Item.is_deleted
+    @ret r
+    @sig
+        ensures r == (self.info.bits() & 0b100 == 0b100),
+    @*/
+
     /*@extract yrs/src/block.rs | impl Item | fn id | label=Item.id
     @ret r
     @sig
